@@ -69,7 +69,8 @@ class C08(object):
     assumptions = ['country order and Region default-currency inheritance are documented order dependence and fixed',
                    'wiring calls (AddSupplier, SetExogenous, RegisterCashFlow, portfolio rules) follow the declarations']
     required_counters = ('builds.compared', 'builds.compared_exactly', 'orders.distinct',
-                         'zone_queried_during_construction.cases', 'parameter_chain_across_sectors.cases', 'two_markets_household_buyer_nondefault_codes.cases')
+                         'zone_queried_during_construction.cases', 'parameter_chain_across_sectors.cases', 'two_markets_household_buyer_nondefault_codes.cases',
+                         'profitable_firm_sharing_its_market_with_an_importer.cases')
 
     def n_cases(self, tier):
         return 12 if tier == 'quick' else 30 + 270
@@ -91,6 +92,11 @@ class C08(object):
             # scalar parameters chained through several sectors (their time-zero values must not depend on the order)
             import random as _r
             M.add_param_chain(_r.Random('pchain:%d:%d' % (idx, rng.getrandbits(20))), spec)
+        if idx % 3 == 1:
+            # a profitable single-output firm whose market has a second supplier abroad
+            sp2 = M.gen_spec(rng, n_zones=2, ext=True, allow_fed=False, maxtime=rng.randint(3, 4))
+            if M.force_import_into_market_of_profitable_firm(rng, sp2):
+                spec = sp2
         codes = None
         if idx % 3 == 0:
             # two markets with prefix-related codes in which government AND household buy, a non-default labour code
@@ -113,6 +119,9 @@ class C08(object):
         codes = case.get('codes')
         if codes:
             rec.count('two_markets_household_buyer_nondefault_codes.cases')
+        if any(c.get('cap') and c['firm']['form'] == 'fixed' and any(i['market'] == c['key'] for i in spec['imports'])
+               for z in spec['zones'] for c in z['countries'] if c['role'] != 'central'):
+            rec.count('profitable_firm_sharing_its_market_with_an_importer.cases')
         base = M.build(spec, query_zone=qz, codes=codes)
         if base.error is not None:
             return {'verdict': 'notjudged', 'shape': shape + '|base:' + type(base.error).__name__}
